@@ -3,7 +3,9 @@ package props
 import (
 	"strings"
 
+	"verifharness/stubs"
 	"verifharness/verif"
+	"verifharness/world"
 
 	"github.com/pquerna/otp/totp"
 	"github.com/volatiletech/authboss/v3"
@@ -15,6 +17,7 @@ func init() {
 	register("C13_AllRoutes", C13_AllRoutes)
 	register("C13_SMSSetupThenConfirm", C13_SMSSetupThenConfirm)
 	register("C13_EmailVerifyEnd", C13_EmailVerifyEnd)
+	register("C13_SMSRemoveNeedsOwnPhone", C13_SMSRemoveNeedsOwnPhone)
 }
 
 func settingsOpts() flowOpts {
@@ -54,13 +57,26 @@ func C13_AllRoutes() {
 	totpSec, hasTotpSec := S.Lookup2(totp2fa.SessionTOTPSecret)
 	smsSec, hasSmsSec := S.Lookup2(sms2fa.SessionSMSSecret)
 	smsNum, hasSmsNum := S.Lookup2(sms2fa.SessionSMSNumber)
-	// A6 (enrolment form): the code held by the session was texted to the number being enrolled,
-	// or - for removal - to the account's registered number
+	sentBefore := len(f.w.SMS.Sent)
 	_, panicked, _ := f.serve(route, v, nil)
 	if panicked {
 		return
 	}
 	verif.Reach("route-served")
+	// A6 is preserved: a code the session holds afterwards is accompanied by the number it was
+	// texted to (by this request, or before it)
+	if postSec, has := f.w.Session.Lookup2(sms2fa.SessionSMSSecret); has {
+		where := f.smsSentTo
+		fresh := false
+		if len(f.w.SMS.Sent) > sentBefore {
+			m := f.w.SMS.Sent[len(f.w.SMS.Sent)-1]
+			fresh = m.Text == postSec
+			where = verif.Ite(fresh, m.Number, where)
+		}
+		verif.Assert(verif.Or(fresh, verif.And(hasSmsSec, postSec == smsSec)), "a code held by the session is the one it held before or one texted by this request")
+		st, hasST := f.w.Session.Lookup2(sms2fa.SessionSMSSentTo)
+		verif.Assert(verif.And(hasST, st == where), "the session records the number its SMS code was texted to (A6 preserved)")
+	}
 	emailOK := verif.Or(!o.emailAuth, verif.And(hasAuthed, authed == "true"))
 	for _, a := range f.a {
 		post := f.w.Store.Get(a.pid)
@@ -90,11 +106,12 @@ func C13_AllRoutes() {
 				verif.Assert(route == "POST /2fa/sms/confirm", "SMS 2FA is enabled only by the confirm route")
 				verif.Assert(verif.And(hasSmsNum, post.SMSPhoneNumber == smsNum), "the enrolled number is the one the session was set up with")
 				verif.Assert(verif.And(verif.And(hasSmsSec, v.Code != ""), v.Code == smsSec), "enabling SMS 2FA needs the code held by the session")
+				verif.Assert(f.smsSentTo == smsNum, "enabling SMS 2FA needs a code that was texted to the number being enrolled")
 				verif.Assert(emailOK, "enrolment needs e-mail authorisation when it is required")
 				verif.Assert(!f.w.Session.Has(authboss.Session2FAAuthed), "a completed enrolment spends the e-mail authorisation")
 			} else {
 				verif.Assert(route == "POST /2fa/sms/remove", "SMS 2FA is disabled only by the remove route")
-				verif.Assert(verif.Or(validRecovery(a, v.RecoveryCode), verif.And(verif.And(v.RecoveryCode == "", v.Code != ""), verif.And(hasSmsSec, v.Code == smsSec))), "disabling SMS 2FA needs the current code or an unused recovery code")
+				verif.Assert(verif.Or(validRecovery(a, v.RecoveryCode), verif.And(verif.And(v.RecoveryCode == "", v.Code != ""), verif.And(verif.And(hasSmsSec, v.Code == smsSec), f.smsSentTo == a.u.SMSPhoneNumber))), "disabling SMS 2FA needs the current code, texted to the registered number, or an unused recovery code")
 			}
 		}
 		if codesChanged {
@@ -141,10 +158,6 @@ func C13_SMSSetupThenConfirm() {
 	a := f.a[0]
 	f.w.Session.Set(authboss.SessionKey, a.pid)
 	f.w.Session.Del(authboss.SessionHalfAuthKey)
-	// A6: a code already held by the session was texted to smsSentTo; if a number is being
-	// enrolled it is that number
-	sn, hasSN := f.w.Session.Lookup2(sms2fa.SessionSMSNumber)
-	verif.Assume(verif.Implies(verif.And(hasSN, f.w.Session.Has(sms2fa.SessionSMSSecret)), f.smsSentTo == sn))
 	f.preS = f.w.Session.Snapshot()
 	v1 := symbolicValues()
 	sentBefore := len(f.w.SMS.Sent)
@@ -192,4 +205,73 @@ func C13_EmailVerifyEnd() {
 	if granted {
 		verif.Assert(!f.w.Session.Has(authboss.Session2FAAuthToken), "the presented token is spent")
 	}
+}
+
+func symbolicValues3() *world.Values {
+	return &world.Values{
+		Code:         verif.String("v3_code", 6),
+		RecoveryCode: verif.String("v3_rcode", 3),
+		PhoneNumber:  verif.String("v3_phone", 5),
+		Invalid:      verif.Bool("v3_invalid"),
+	}
+}
+
+// C13_SMSRemoveNeedsOwnPhone: "disabling [needs] a current code": up to three requests from a
+// fully authenticated session of an account with SMS 2FA - optionally a setup for an arbitrary
+// number, optionally a remove request (which may text a code), then a remove request: when
+// the registered number is removed by an SMS code, that code was texted to the registered
+// number and to no other phone (ghost: where each code went).
+func C13_SMSRemoveNeedsOwnPhone() {
+	verif.ReplayInInterpreter()
+	o := settingsOpts()
+	f := newFlow(o)
+	a := f.a[0]
+	reg := a.u.SMSPhoneNumber
+	verif.Assume(reg != "")
+	f.w.Session.Set(authboss.SessionKey, a.pid)
+	f.w.Session.Del(authboss.SessionHalfAuthKey)
+	cur, hasCur := f.w.Session.Lookup2(sms2fa.SessionSMSSecret)
+	stubs.OutstandingCodes = []string{cur}
+	// ghosts: the session's current code went to the registered phone / to some other phone
+	toReg := verif.And(hasCur, f.smsSentTo == reg)
+	toOther := verif.And(hasCur, f.smsSentTo != reg)
+	step := func(route string, v *world.Values) bool {
+		f.preS = f.w.Session.Snapshot()
+		sent := len(f.w.SMS.Sent)
+		code, hasCode := f.w.Session.Lookup2(sms2fa.SessionSMSSecret)
+		stubs.OutstandingCodes = []string{code} // generator contract: a fresh code differs from the outstanding one
+		before := f.w.Store.Get(a.pid).SMSPhoneNumber
+		_, panicked, _ := f.serve(route, v, nil)
+		if panicked {
+			return false
+		}
+		after := f.w.Store.Get(a.pid).SMSPhoneNumber
+		if verif.And(before != "", after == "") {
+			verif.Witness(v.RecoveryCode == "", "number-removed-by-sms-code")
+			if v.RecoveryCode == "" {
+				verif.Assert(verif.And(hasCode, v.Code == code), "disabling SMS 2FA needs the session's current code")
+				verif.Assert(toReg, "the code that disables SMS 2FA was texted to the registered number")
+				verif.Assert(!toOther, "the code that disables SMS 2FA was texted to no other phone")
+			}
+			return false
+		}
+		if len(f.w.SMS.Sent) > sent {
+			m := f.w.SMS.Sent[len(f.w.SMS.Sent)-1]
+			same := verif.And(hasCode, m.Text == code)
+			toReg = verif.Or(verif.And(same, toReg), m.Number == reg)
+			toOther = verif.Or(verif.And(same, toOther), m.Number != reg)
+		}
+		return true
+	}
+	if verif.Choice("first-setup", 2) == 1 {
+		if !step("POST /2fa/sms/setup", symbolicValues()) {
+			return
+		}
+	}
+	if verif.Choice("second-remove", 2) == 1 {
+		if !step("POST /2fa/sms/remove", symbolicValues2()) {
+			return
+		}
+	}
+	step("POST /2fa/sms/remove", symbolicValues3())
 }
